@@ -1,3 +1,4 @@
+import Firebolt.Properties.TransBase
 import Firebolt.Properties.C01
 import Firebolt.Properties.ExecFlow
 import Firebolt.Properties.ExecNet
@@ -77,6 +78,40 @@ theorem tree_discarding_child_never_blocks (cfg : Path → Cfg) (caps : Path →
 
 /-! ### influence closure: the pinned functions, and every function of the repository that writes a struct field or package
 variable they read, are unchanged (digests regenerated from /repo on every run; a difference names the functions) -/
+/-! ### The code itself, translated (`Generated/Trans.lean`, rewritten from /repo on every run by extractor/translate.go)
+
+The `translated_*` theorems are about MiniGo terms the translator produced from the current Go source: for every
+environment the translated fragment does what the hand-written model function says.  They are semantic obligations —
+a rewrite that preserves the behaviour keeps them provable, a changed comparison, bound or argument does not. -/
+section Translated
+open Firebolt.MiniGo Firebolt.TransBase
+
+def gauge (σ : Env) : String × List Int :=
+  ("metrics.Node().BufferedEvents.WithLabelValues(childNode.Config.ID).Set", [σ "float64(len(childNode.Ch))"])
+
+/-- one delivery of deliverToChild: with room the event is sent; without room a discarding child costs the event and one
+count of discarded_events_total, and nothing blocks; a non-discarding child gets a blocking send (never lost) after one
+count of buffer_full_events_total -/
+theorem translated_deliverBody (σ : Env) :
+    obs Trans.deliverBody σ =
+      ⟨(if σ "room childNode.Ch" ≠ 0 then [("send childNode.Ch", [σ "event"])]
+        else if σ "childNode.Config.DiscardOnFullBuffer" ≠ 0 then
+          [("metrics.Node().DiscardedEvents.WithLabelValues(childNode.Config.ID).Inc", [])]
+        else [("metrics.Node().BufferFullEvents.WithLabelValues(childNode.Config.ID).Inc", []), ("send childNode.Ch", [σ "event"])])
+        ++ [gauge σ], none, false⟩ := by
+  by_cases h1 : σ "room childNode.Ch" = 0 <;> by_cases h2 : σ "childNode.Config.DiscardOnFullBuffer" = 0 <;>
+  minigo_simp [Trans.deliverBody, gauge, h1, h2]
+
+/-- an event is dropped by a delivery only at a discarding child with a full buffer, and then it is counted -/
+theorem translated_drop_only_if_discarding_and_counted (σ : Env) :
+    (("send childNode.Ch", [σ "event"]) ∉ (obs Trans.deliverBody σ).calls ↔
+      (σ "room childNode.Ch" = 0 ∧ σ "childNode.Config.DiscardOnFullBuffer" ≠ 0)) ∧
+    (("metrics.Node().DiscardedEvents.WithLabelValues(childNode.Config.ID).Inc", []) ∈ (obs Trans.deliverBody σ).calls ↔
+      ("send childNode.Ch", [σ "event"]) ∉ (obs Trans.deliverBody σ).calls) := by
+  rw [translated_deliverBody]
+  by_cases h1 : σ "room childNode.Ch" = 0 <;> by_cases h2 : σ "childNode.Config.DiscardOnFullBuffer" = 0 <;> simp [h1, h2, gauge]
+end Translated
+
 theorem closure_unchanged : GeneratedClo.C04 = ExpectedClo.C04 := by rfl
 
 end Firebolt.C04
